@@ -285,7 +285,7 @@ func lkExtErr(err error) bool {
 	}
 	s := err.Error()
 	for _, p := range []string{"no handler for message", "validator does not exist", "too many unbonding", "no delegation for (address, validator) tuple",
-		"cosmos.staking.v1beta1.Delegation", "no delegation distribution info", "no validator distribution info", "decoding bech32 failed", "invalid bech32"} {
+		"cosmos.staking.v1beta1.Delegation", "invalid shares amount", "no delegation distribution info", "no validator distribution info", "decoding bech32 failed", "invalid bech32"} {
 		if strings.Contains(s, p) {
 			return true
 		}
@@ -702,7 +702,7 @@ func (h *lkHist) genOp(r *Rng) []string {
 	to := r.Pick("a1", "a2", "a0")
 	k := r.N(100)
 	if k < 22 {
-		dt := []time.Duration{time.Nanosecond, 300 * time.Millisecond, time.Second, 1700 * time.Millisecond, 5 * time.Second, 7 * time.Second, 21 * time.Second, 60 * time.Second}[r.N(8)]
+		dt := []time.Duration{time.Nanosecond, 300 * time.Millisecond, time.Second, 1700 * time.Millisecond, 5 * time.Second, 21 * time.Second, 21 * time.Second, 60 * time.Second}[r.N(8)]
 		t := h.c.Time.Add(dt)
 		// aim at the schedule's and the unbondings' instants
 		switch r.N(6) {
@@ -762,6 +762,17 @@ func (h *lkHist) genOp(r *Rng) []string {
 	}
 	// proxy + module messages (delegator: the lockup or the base account a0)
 	d := r.Pick("lock", "a0", "a0")
+	if h.stake("plock").IsPositive() || h.bal("plock", "uvrise").IsPositive() || h.ubd("plock").IsPositive() {
+		// the lockup has a live proxy: drive it (undelegate / withdraw the unbonded funds back / try to forward them)
+		d = r.Pick("lock", "lock", "lock", "a0")
+		if b := h.bal("plock", "uvrise"); b.IsPositive() && r.N(2) == 0 {
+			amt := b.AddRaw(int64(r.N(3)) - 1).String()
+			if r.N(3) == 0 {
+				amt = sdkmath.NewInt(1 + int64(r.N(int(min64(b.Int64(), 1<<40))))).String()
+			}
+			return []string{"sdWithdraw", caller, sender, amt}
+		}
+	}
 	root := "a0"
 	if d == "lock" {
 		root = h.owner
@@ -900,6 +911,8 @@ func suiteLockup(e *Env) {
 		}
 		return
 	}
+	// the shared Rng's streams for consecutive seeds are the same stream shifted by one draw: spread the seeds
+	e.R = NewRng(e.Seed*0x9E3779B1 + 77)
 	nops := 30
 	if e.Tier == "thorough" {
 		nops = 45
